@@ -1179,9 +1179,16 @@ def fam_setitem_field(rng):
     WT = gen_pure(rng, rng.randint(0, 1))
     what = [L.gen_value(rng, WT) for _ in range(n)]
     wl = L.Enc(rng).encode(what, WT)
-    if istuple:
-        ref = [tuple(list(v) + [w]) for v, w in zip(vals, what)]
-        line = "setitem_field %d %s %s" % (k, wl.tokens(), lay.tokens())
+    if istuple or rng.random() < 0.4:
+        # integer position: the new field is inserted there (appended when the position is at or beyond the end);
+        # a named record gets the key str(position)
+        where = rng.randint(0, k + 1)
+        pos = min(where, k)
+        if istuple:
+            ref = [tuple(list(v)[:pos] + [w] + list(v)[pos:]) for v, w in zip(vals, what)]
+        else:
+            ref = [dict(list(v.items())[:pos] + [(str(where), w)] + list(v.items())[pos:]) for v, w in zip(vals, what)]
+        line = "setitem_field i:%d %s %s" % (where, wl.tokens(), lay.tokens())
     else:
         ref = [dict(list(v.items()) + [("new", w)]) for v, w in zip(vals, what)]
         line = "setitem_field new %s %s" % (wl.tokens(), lay.tokens())
